@@ -22,7 +22,7 @@ inductive Ty where
   | iface (i : String)
   | named (n : String)
   | list (elem : Ty)
-  | opaque
+  | other
 deriving Repr, DecidableEq, Inhabited
 
 /-- descriptor `(mode, name, elem)` of the generated tables → `Ty` -/
@@ -33,7 +33,7 @@ def tyOfDesc (d : String × String × String) : Ty :=
     else if mode == "ptr" then .ptr name
     else if mode == "iface" then .iface name
     else if mode == "named" then .named name
-    else .opaque
+    else .other
   if d.1 == "list" then .list (base d.2.2 d.2.1) else base d.1 d.2.1
 
 /-- field types of a struct kind, in declaration order -/
@@ -77,7 +77,7 @@ def conforms : Ty → Tree → Bool
         | .iface i => x.isNilNode || (impls i).contains x.kind
         | .named n => x.kind == n
         | _ => false)
-  | .opaque, _ => false
+  | .other, _ => false
 
 /-- the content of a named scalar (`BoolVal`, `ListArg`): one leaf -/
 def isSingleLeaf : List Tree → Bool
